@@ -25,7 +25,8 @@ def sh(cmd, cwd=None, timeout=900):
 
 
 def main():
-    only = sys.argv[1:]
+    only = [a for a in sys.argv[1:] if not a.startswith("--")]
+    waves = "CD" if "--wave2" in sys.argv else ("AB" if "--wave1" in sys.argv else "ABCD")
     sh("git -C /repo worktree remove --force %s" % WT)
     rc, out = sh("git -C /repo worktree add --detach %s HEAD" % WT)
     assert rc == 0, out
@@ -33,10 +34,12 @@ def main():
     summary = json.load(open(sp)) if os.path.exists(sp) else {}
     try:
         for prop in PROPS:
-            for v in "ABCD":
+            for v in waves:
                 src = os.path.join(SRC, prop, "out", v)
                 sid = "%s-%s" % (prop, v)
                 if only and sid not in only:
+                    continue
+                if "--resume" in sys.argv and sid in summary:
                     continue
                 if not os.path.exists(os.path.join(src, "patch.diff")):
                     continue
@@ -74,7 +77,9 @@ def main():
                 if rc == 0:
                     try:
                         for p in PROPS:
-                            rcc, oc = sh("%s/check %s --no-lean" % (VERIF, p), cwd=VERIF, timeout=1200)
+                            # the boosted failing-input search is only run for the property the change targets
+                            pre = "" if p == prop else "VERIF_SEARCH=0 "
+                            rcc, oc = sh("%s%s/check %s --no-lean" % (pre, VERIF, p), cwd=VERIF, timeout=1200)
                             line = next((l for l in oc.split("\n") if l.startswith("VIOLATION")), "")
                             if rcc == 1:
                                 det[p] = "no-failing-input-found" if "no-failing-input-found" in line else "oracle-replay"
